@@ -57,9 +57,22 @@ def modelOut (c : Case) : Json :=
 
 /-! ### judge: the property, from the specification side (no call into `Bash.run` / `define`) -/
 
+def isBlank (c : Char) : Bool := c == ' ' || c == '\t' || c == '\n'
+
+/-- A value starting with `~` whose would-be tilde-prefix (the text up to the first `/`, or all of
+it) contains a blank that is not the last character of the value: `~5 km/h`, `~ 3/4 of it`,
+`~a ~b`.  No login name contains a blank, so this is literal text, not a tilde form. -/
+def blankTilde (v : Str) : Bool :=
+  match v with
+  | '~' :: r =>
+    let pre := r.takeWhile (· != '/')
+    let inner := if pre.length == r.length then pre.dropLast else pre   -- (not the last character of the value)
+    inner.any isBlank
+  | _ => false
+
 /-- "contains no shell-expansion characters": no `$`, backquote, backslash, and not a tilde form -/
 def expansionFree (v : Str) : Bool :=
-  !(v.contains '$' || v.contains '`' || v.contains '\\') && v.head? != some '~'
+  !(v.contains '$' || v.contains '`' || v.contains '\\') && (v.head? != some '~' || blankTilde v)
 
 def nameCh (c : Char) : Bool := c.isAlphanum || c == '_'
 
@@ -91,8 +104,8 @@ def kindOf (value : Str) (parts : List Part) : Kind :=
     else match value with
       | '~' :: r =>
         let login := r.takeWhile (· != '/')
-        if login.all (fun c => nameCh c || c == '.' || c == '-') && cleanText (r.dropWhile (· != '/')) &&
-           !(r.any fun c => c == ' ' || c == '\t') then .cleanTilde else .other
+        if login.all (fun c => nameCh c || c == '.' || c == '-') && cleanText (r.dropWhile (· != '/')) then .cleanTilde
+        else .other
       | _ => .other
   else
     if value.head? == some '~' then .other
